@@ -32,6 +32,7 @@ type Config struct {
 	Bounds     []string
 	Concretize int // max range for symbolic value concretisation
 	AcceptPanic bool
+	SymIndexFork bool // //vf:symindex fork: a load through a symbolic index forks per feasible index instead of building an ite chain
 	TierInt     int
 	Wall        time.Duration
 }
@@ -241,6 +242,13 @@ func (w *Worker) decideN(conds []*Term, why string) int {
 		st.addPC(conds[d])
 		return d
 	}
+	if len(st.bind) > 0 {
+		sub := make([]*Term, len(conds))
+		for i, c := range conds {
+			sub[i] = st.subst(c)
+		}
+		conds = sub
+	}
 	type alt struct {
 		i     int
 		model map[string]*big.Int
@@ -276,6 +284,12 @@ func (w *Worker) decideN(conds []*Term, why string) int {
 			continue
 		}
 		if st.refuted(c) {
+			continue
+		}
+		if ref, fe := st.domainCheck(c); ref {
+			continue
+		} else if fe {
+			feas = append(feas, alt{i: i})
 			continue
 		}
 		r, m := w.sol.CheckModel(st.pc, c, w.allVars())
@@ -353,6 +367,66 @@ func (st *State) refuted(c *Term) bool {
 		}
 	}
 	return false
+}
+
+// soleVar returns the single variable a term depends on (nil when none or several).
+var soleVarCache sync.Map // term ID -> *Term (or (*Term)(nil))
+
+func soleVar(t *Term) *Term {
+	if v, ok := soleVarCache.Load(t.ID); ok {
+		return v.(*Term)
+	}
+	var vs []*Term
+	collectVars(t, map[int64]bool{}, &vs)
+	var r *Term
+	if len(vs) == 1 {
+		r = vs[0]
+	}
+	soleVarCache.Store(t.ID, r)
+	return r
+}
+
+// domainCheck decides c by enumeration when it depends on one variable of at most 8 bits:
+// the variable's values are filtered by the path-condition conjuncts that mention only it.
+// refuted: no remaining value satisfies c (sound even if other conjuncts also constrain the
+// variable). feasible: some value satisfies c and no conjunct couples the variable with others.
+func (st *State) domainCheck(c *Term) (refuted, feasible bool) {
+	v := soleVar(c)
+	if v == nil || v.S.K != KBV || v.S.W > 8 {
+		return false, false
+	}
+	var own []*Term
+	coupled := false
+	for _, p := range st.pc {
+		p = st.subst(p)
+		if sv := soleVar(p); sv == v {
+			own = append(own, p)
+		} else if sv == nil {
+			var vs []*Term
+			collectVars(p, map[int64]bool{}, &vs)
+			for _, x := range vs {
+				if x == v {
+					coupled = true
+				}
+			}
+		}
+	}
+	model := map[string]*big.Int{}
+	for val := 0; val < 1<<uint(v.S.W); val++ {
+		model[v.Name] = big.NewInt(int64(val))
+		cache := map[int64]*Term{}
+		ok := true
+		for _, p := range own {
+			if !evalTerm(p, model, cache).IsTrue() {
+				ok = false
+				break
+			}
+		}
+		if ok && evalTerm(c, model, cache).IsTrue() {
+			return false, !coupled
+		}
+	}
+	return true, false
 }
 
 // evalTrue evaluates c under the path's cached model.
@@ -1102,6 +1176,10 @@ func (w *Worker) loadPtr(g *G, addr Value) Value {
 		return v
 	}
 	// symbolic final index: base path is Path[:n-1], base index Path[n-1]
+	if w.hr.Cfg.SymIndexFork && p.SymN <= w.hr.Cfg.Concretize {
+		cp := w.concretizePtr(p)
+		return w.loadPtr(g, cp)
+	}
 	n := len(p.Path)
 	arr := getPath(root, p.Path[:n-1]).(*ArrayV)
 	base := p.Path[n-1]
